@@ -263,6 +263,10 @@ def text_mutations(g, m):
     out.append(('cutoff_nonfinite', t.replace('cutoff : 3.5', 'cutoff : ' + g.choice(['nan', 'inf', '-inf']))))
     if m['kind'] != 'pair': out.append(('cutoff_rho_nonfinite', t.replace('cutoff_rho : 3.0', 'cutoff_rho : ' + g.choice(['nan', 'inf']))))
     out.append(('cutoff_negative', t.replace('cutoff : 3.5', 'cutoff : -3.5')))
+    out.append(('single_row_grid', t.replace('nr : 8', 'nr : 1')))
+    if m['kind'] != 'pair': out.append(('single_row_density_grid', t.replace('nrho : 4', 'nrho : 1')))
+    if m['target'] in ('LAMMPS', None): out.append(('lammps_one_row', t.replace('nr : 8', 'nr : 2')))
+    if m['target'] == 'DL_POLY': out.append(('dlpoly_four_rows', t.replace('nr : 8', 'nr : 4')))
     out.append(('all_three_grid_options', t.replace('nr : 8', 'nr : 8\ndr : 0.5')))
     if m['kind'] != 'pair':
         out.append(('species_nonnumeric', t + '[Species]\n%s.atomic_mass : heavy\n' % m['els'][0]))
